@@ -32,14 +32,14 @@ def generate_histories(thorough, seed):
     if rc != 0 or not hs:
         raise MachineryError('generation of call histories failed:\n' + out[-3000:])
     rc, out = common.run_tlc('LeakGen', 'LeakGen_sim.cfg', workers=1, timeout=1200,
-                             extra=['-simulate', 'num=%d' % (4000 if thorough else 400), '-depth', '8', '-seed', str(seed % 2 ** 31)])
+                             extra=['-simulate', 'num=%d' % (4000 if thorough else 300), '-depth', '8', '-seed', str(seed % 2 ** 31)])
     sim = common.tlc_printed(out, 'HIST')
     if not sim:
         raise MachineryError('simulation of long call histories failed:\n' + out[-3000:])
     uniq = {}
     for h in sim:
         uniq[(h['start'], tuple(h['hist']))] = h
-    return hs, list(uniq.values())[:(4000 if thorough else 400)]
+    return hs, list(uniq.values())[:(4000 if thorough else 300)]
 
 
 def describe_key(res):
@@ -89,12 +89,8 @@ def run(replay=None):
         hs, sim = generate_histories(thorough, seed)
         ck.notes['generated_histories'] = len(hs)
         ck.notes['simulated_histories'] = len(sim)
-        ninst = 2 if thorough else 1
-        n = 0
-        for h in hs + sim + [{'start': a, 'hist': b} for a, b in LISTED]:
-            for _ in range(ninst if len(h['hist']) <= 4 else 1):
-                key_jobs.append((h['start'], h['hist'], seed * 1000003 + n))
-                n += 1
+        for n, h in enumerate(hs + sim + [{'start': a, 'hist': b} for a, b in LISTED]):
+            key_jobs.append((h['start'], h['hist'], seed * 1000003 + n))       # one seeded instantiation per history
         nw = 320 if thorough else 40
         for i in range(nw):
             wallet_jobs.append((seed % 100000 * 1000 + i, list(c16_drv.WALLET_KINDS[i % len(c16_drv.WALLET_KINDS)]),
